@@ -21,6 +21,11 @@ MISSES = {
     'C03b': 'no xtriggers in the C03 workload and the stall oracle required satisfied xtriggers -> xtrigger workloads; a stall with a task that only waits for a pending xtrigger is a violation',
     'C19b': 'broadcast preludes only put -> put + put + clear in one iteration',
     'C09b': 'needs clock-expire (datetime cycling), outside the C09 workload -> caught by C32 after failing, success-required clock-expire tasks were added there',
+    'C26b': 'needs the removal of a runahead-limited parentless task whose definition has a future trigger on another recurrence -> generator option for such tasks (R1 = "x[+P1] => y" with P1 = y), future offsets in the C26 workload, and a removal command whose targets ("@runahead") are resolved against the pool when it is issued',
+    'C27b': 'reloads were never preceded by removals / manual sets, so no pooled task had a prerequisite state differing from the recorded outputs -> such commands added before the reload',
+    'C28b': 'retained finished group-start members with dependants were rarely triggered together -> trigger target "@finished-group" (a pooled finished task plus instances depending on it), resolved when issued',
+    'C43b': 'stop tasks always finished complete -> stop-task cases with custom required outputs and jobs that succeed without them',
+    'C46b': 'cycle points were single-digit -> runs with 10-12 cycles and start tasks on both sides of the one/two-digit boundary',
     'C01b': 'needs absolute triggers, which the C01 workload does not generate (its closure model is not validated for them) -> caught by C45; C01 unchanged',
 }
 
